@@ -146,6 +146,14 @@ type FuncCtx struct {
 	specDepth     int
 	regexes       []string
 	preludeText   string
+
+	storeLog      map[*ssa.BasicBlock]map[string]map[string]bool
+	prevStoreLog  map[*ssa.BasicBlock]map[string]map[string]bool
+	symLine       map[string]int
+	prevSymLine   map[string]int
+	headLine      map[*ssa.BasicBlock]int
+	prevHeadLine  map[*ssa.BasicBlock]int
+	sliceArr      map[string]string
 }
 
 type loopMods struct {
@@ -176,6 +184,7 @@ func (fx *FuncCtx) note(format string, args ...interface{}) {
 // declare introduces an unconstrained constant.
 func (fx *FuncCtx) declare(prefix, sortName string) string {
 	n := fx.fresh(prefix)
+	fx.symLine[n] = len(fx.lines)
 	fx.emit(fmt.Sprintf("(declare-const %s %s)", n, sortName))
 	return n
 }
@@ -186,6 +195,7 @@ func (fx *FuncCtx) define(prefix, sortName, term string) string {
 		return term
 	}
 	n := fx.fresh(prefix)
+	fx.symLine[n] = len(fx.lines)
 	fx.emit(fmt.Sprintf("(define-fun %s () %s %s)", n, sortName, term))
 	return n
 }
@@ -287,7 +297,42 @@ func (fx *FuncCtx) heapSet(st *State, name, sortName, term string) {
 	if _, ok := fx.compSort[name]; !ok {
 		fx.compSort[name] = sortName
 	}
+	fx.logStore(name, storeIndex(term))
 	st.Heap[name] = fx.define("h", sortName, term)
+}
+
+// storeIndex extracts IDX from "(store H IDX V)"; "*" when the term has another shape.
+func storeIndex(term string) string {
+	if !strings.HasPrefix(term, "(store ") {
+		return "*"
+	}
+	parts := splitSexps(term[len("(store "):])
+	if len(parts) < 2 {
+		return "*"
+	}
+	return parts[1]
+}
+
+// logStore records, for every loop containing the current block, at which
+// index a heap component is written (used for automatic loop frames).
+func (fx *FuncCtx) logStore(name, idx string) {
+	if fx.specMode || fx.curBlock == nil {
+		return
+	}
+	for _, li := range fx.loops {
+		if !li.blocks[fx.curBlock] {
+			continue
+		}
+		m := fx.storeLog[li.header]
+		if m == nil {
+			m = map[string]map[string]bool{}
+			fx.storeLog[li.header] = m
+		}
+		if m[name] == nil {
+			m[name] = map[string]bool{}
+		}
+		m[name][idx] = true
+	}
 }
 
 // havocAll forgets the whole heap.
